@@ -41,6 +41,11 @@ COLS = ['fa', 'fb', 'fc', 'label']
 FRAME = [['b', 'q', 'u', '0'], ['b', 'q', 'w', '1'], ['c', 'p', 'u', '0'], ['a', 'q', 'w', '1'], ['a', 'q', 'u', '1'], ['b', 'q', 'u', '0'], ['a', 'p', 'u', '1'], ['c', 'q', 'v', '0']]
 
 
+# a larger frame for the runs with a sampling ratio < 1 (the sampled rows must matter for the scores)
+FRAME_R = [['c', 'p', 'v', '0'], ['c', 'p', 'w', '1'], ['b', 'p', 'v', '0'], ['a', 'q', 'w', '1'], ['c', 'p', 'u', '0'], ['c', 'q', 'v', '1'], ['c', 'p', 'v', '0'], ['a', 'p', 'v', '1'],
+           ['c', 'p', 'w', '0'], ['b', 'q', 'u', '1'], ['a', 'p', 'w', '0'], ['a', 'q', 'w', '1']]
+
+
 def lehmer(ctx_vars, n, decide_int, bounds=None):
     """permutation of range(n) from Lehmer-code variables (variables beyond len(ctx_vars) are 0: the tail keeps its order);
     a variable whose declared range is wider than needed is reduced modulo the number of remaining elements (still onto)"""
@@ -131,7 +136,7 @@ def rank(cr, pool, args, shuffle=None):
     if shuffle is not None:
         cr.random = types.SimpleNamespace(shuffle=shuffle, seed=lambda *a, **k: None)
     try:
-        res = cr.mixed_rank_graph(pd.DataFrame(FRAME, columns=COLS), args, pool, PL.PB())
+        res = cr.mixed_rank_graph(pd.DataFrame(FRAME if float(args.mi_stratified_sampling_ratio) >= 1.0 else FRAME_R, columns=COLS), args, pool, PL.PB())
     finally:
         if shuffle is not None:
             cr.random = random
@@ -170,7 +175,8 @@ def jobs(tier):
     out = []
     for w in range(1, b['schedule'] + 1):
         for first in range(4):
-            out.append({'cond': 'schedule', 'workers': w, 'pins': {'o0': first}, 'weight': 6 * w ** 4, 'label': f'workers={w},first task={first}'})
+            for ratio in ((1.0, 0.5) if w <= 2 else (1.0,)):
+                out.append({'cond': 'schedule', 'workers': w, 'ratio': ratio, 'pins': {'o0': first}, 'weight': 6 * w ** 4, 'label': f'workers={w},first task={first},sampling ratio={ratio}'})
     for mode, firsts in (('True', range(4)), ('False', range(13))):
         for first in firsts:
             out.append({'cond': 'shuffle', 'mode': mode, 'pins': {'o0': first}, 'weight': 200, 'label': f'target_only={mode},first={first}'})
@@ -187,7 +193,8 @@ def run_job(job):
     if cond == 'setorder':
         return run_setorder(job)
     mode = job.get('mode', 'True')
-    ref_trip, ref_g = rank(cr, PL.SerialPool(), make_args(target_ranking_only=mode))
+    ratio = job.get('ratio', 1.0)
+    ref_trip, ref_g = rank(cr, PL.SerialPool(), make_args(target_ranking_only=mode, mi_stratified_sampling_ratio=ratio))
     ntask = len(ref_trip) // 2
     W = job.get('workers', 1)
 
@@ -209,9 +216,9 @@ def run_job(job):
         if cond == 'schedule':
             workers = [int(SInt(v, 0, W - 1)) for v in st['w']]
             pool = SchedPool(order, workers, None, [cr])
-            trip, g = rank(cr, pool, make_args(target_ranking_only=mode))
-            trip2, g2 = rank(cr, SchedPool(order, workers, None, [cr]), make_args(target_ranking_only=mode))
-            w = {'cond': cond, 'order': order, 'workers': workers}
+            trip, g = rank(cr, pool, make_args(target_ranking_only=mode, mi_stratified_sampling_ratio=ratio))
+            trip2, g2 = rank(cr, SchedPool(order, workers, None, [cr]), make_args(target_ranking_only=mode, mi_stratified_sampling_ratio=ratio))
+            w = {'cond': cond, 'order': order, 'workers': workers, 'ratio': ratio}
         else:
             def shuf(lst):
                 perm = order[:len(lst)] if sorted(order[:len(lst)]) == list(range(len(lst))) else list(range(len(lst)))
@@ -226,7 +233,7 @@ def run_job(job):
             probs.append('aggregated scores differ from the serial run')
         if sorted(trip2) != sorted(trip):
             probs.append('a second identical call gives different triplets')
-        d = direct_scores_ok(trip)
+        d = direct_scores_ok(trip) if ratio == 1.0 else None
         if d:
             probs.append(d)
         if probs or out.twin:
@@ -334,9 +341,10 @@ def replay(w):
             s2 = [s for s, o in outs.items() if o == distinct[1]][0]
             return {'reproduced': True, 'signature': 'C09:focus-set-column-order', 'what': f'--feature_set_focus fa,fb,fc, pairwise, MI-numba-randomized: PYTHONHASHSEED={s1} and PYTHONHASHSEED={s2} give different pair scores, e.g. {d} (column order of the focused frame comes from set iteration order)'}
         return {'reproduced': False, 'what': 'identical scores under PYTHONHASHSEED 0..11'}
-    ref_trip, ref_g = rank(cr, PL.SerialPool(), make_args(target_ranking_only=w.get('mode', 'True')))
+    ratio = w.get('ratio', 1.0)
+    ref_trip, ref_g = rank(cr, PL.SerialPool(), make_args(target_ranking_only=w.get('mode', 'True'), mi_stratified_sampling_ratio=ratio))
     if w['cond'] == 'schedule':
-        trip, g = rank(cr, SchedPool(w['order'], w['workers'], None, [cr]), make_args())
+        trip, g = rank(cr, SchedPool(w['order'], w['workers'], None, [cr]), make_args(mi_stratified_sampling_ratio=ratio))
     else:
         def shuf(lst):
             perm = w['order'][:len(lst)] if sorted(w['order'][:len(lst)]) == list(range(len(lst))) else list(range(len(lst)))
@@ -345,7 +353,7 @@ def replay(w):
     probs = []
     if sorted(trip) != sorted(ref_trip) or g != ref_g:
         probs.append(f'result differs from the serial run: {sorted(set(trip) ^ set(ref_trip))[:4]}')
-    d = direct_scores_ok(trip)
+    d = direct_scores_ok(trip) if ratio == 1.0 else None
     if d:
         probs.append(d)
     if probs:
